@@ -27,6 +27,9 @@ type c02Case struct {
 	Host    c02Side `json:"host"`
 	Plug    c02Side `json:"plug"`
 	EnvMode string  `json:"env_mode"` // normal | missing | partly_invalid
+	// Ambient: the host process itself carries a PLUGIN_PROTOCOL_VERSIONS value (a host that is a
+	// plugin of some outer host); the list this client offers must still be the one that counts
+	Ambient string `json:"ambient,omitempty"`
 	Launch  string  `json:"launch"`   // runner | cmd
 }
 
@@ -159,6 +162,9 @@ func c02Gen(t *rapid.T) any {
 	if c.EnvMode == "normal" && rapid.Bool().Draw(t, "cmd") {
 		c.Launch = "cmd"
 	}
+	if pct(t, "ambient", 25) {
+		c.Ambient = oneOf(t, "ambientlist", []string{"1", "0", "6", "0,1,2,3,4,5,6", "99", "2,x", "3,2"})
+	}
 	return c
 }
 
@@ -250,6 +256,12 @@ func c02Run(ci any) (out Outcome) {
 			er = r
 			return r, nil
 		}
+	}
+	if c.Ambient != "" {
+		// cases of one process run one after the other, so the process environment can be borrowed
+		os.Setenv("PLUGIN_PROTOCOL_VERSIONS", c.Ambient)
+		defer os.Unsetenv("PLUGIN_PROTOCOL_VERSIONS")
+		out.label("ambient-version-list")
 	}
 	cl := plugin.NewClient(cc)
 	defer killBounded(cl, 20*time.Second)
@@ -351,7 +363,7 @@ var propC02 = register(&Prop{
 	New: func() any { return &c02Case{} },
 	Run: c02Run,
 	Rule: "rapid draws for host and plugin a version configuration (legacy ProtocolVersion+Plugins, VersionedPlugins with 1-5 versions from 0..6 or unusual numbers, or both), a plugin-type kind per set (net/rpc-only, gRPC-only, dual), GRPCServer on/off, " +
-		"and how the plugin sees PLUGIN_PROTOCOL_VERSIONS (normal / removed / with invalid elements mixed in, via an env-rewriting runner); launched as a real subprocess. " +
+		"and how the plugin sees PLUGIN_PROTOCOL_VERSIONS (normal / removed / with invalid elements mixed in, via an env-rewriting runner); launched as a real subprocess; a quarter of the cases run in a host whose own environment already carries a PLUGIN_PROTOCOL_VERSIONS list (nested host). " +
 		"Oracle (set model): announced version = Client.NegotiatedVersion = max(H∩S); the dispensed implementation's tag says it was registered under that version and kind on the plugin, the host stub is the host's set for that version, " +
 		"wire protocol = that set's; disjoint => Start fails and the pid is gone; no list => plugin announces min(S). Non-trivial: >=2 common versions, or disjoint, or no list.",
 	Assumptions: []string{"plugin sets are non-empty and homogeneous; gRPC-only sets are only served with GRPCServer set; the host's set for a common version can speak the plugin's wire protocol (author preconditions)",
